@@ -18,10 +18,17 @@ pub struct GenQuery {
     pub tags: Vec<&'static str>,
     pub order: Order,
     pub limit: bool,
+    /// constructor term (composed queries of sqlgen2 only)
+    pub term: Option<String>,
+    /// texts of the strict sub-queries of a composed query
+    pub subqueries: Vec<String>,
+    pub nondeterministic: bool,
+    /// explore only the database instances with at most this many rows in total
+    pub max_total_rows: usize,
 }
 
 fn q(sql: String, tables: &[&'static str], tags: &[&'static str]) -> GenQuery {
-    GenQuery { sql, tables: tables.to_vec(), tags: tags.to_vec(), order: Order::None, limit: false }
+    GenQuery { sql, tables: tables.to_vec(), tags: tags.to_vec(), order: Order::None, limit: false, term: None, subqueries: vec![], nondeterministic: false, max_total_rows: usize::MAX }
 }
 
 pub fn queries(tier: Tier) -> Vec<GenQuery> {
@@ -386,4 +393,29 @@ pub fn queries(tier: Tier) -> Vec<GenQuery> {
         }
     }
     out
+}
+
+/// the composed queries of sqlgen2 (every constructor term of nesting depth <= depth)
+pub fn composed(depth: usize) -> Vec<GenQuery> {
+    crate::sqlgen2::compose(depth).iter().map(crate::sqlgen2::to_gen).collect()
+}
+
+/// hand-written E-sql list followed by the composed terms (quick: depth 1, thorough: depth 3)
+pub fn queries_plus(tier: Tier) -> Vec<GenQuery> {
+    let mut v = queries(tier);
+    let mut seen: std::collections::BTreeSet<String> = v.iter().map(|g| g.sql.clone()).collect();
+    for mut g in composed(tier.pick(2, 3)) {
+        if seen.insert(g.sql.clone()) {
+            // quick: nested terms on the instances with <= 2 rows in total
+            if tier == Tier::Quick && !g.subqueries.is_empty() {
+                g.max_total_rows = 2;
+            }
+            // thorough: nested terms on the instances with <= 3 rows in total (depth-1 terms: as the hand-written list)
+            if tier == Tier::Thorough && !g.subqueries.is_empty() {
+                g.max_total_rows = 3;
+            }
+            v.push(g);
+        }
+    }
+    v
 }
